@@ -30,10 +30,20 @@ func init() {
 }
 
 func runC07(c *core.Ctx) {
+	uninit := exitEstablishedUninit(c)
+	if uninit == nil {
+		return
+	}
+	p := c.P
+	uninitRest(c, p, uninit)
+}
+
+// exitEstablishedUninit: every return that leaves Established is dominated by uninit (shared by C07 and C23).
+func exitEstablishedUninit(c *core.Ctx) *core.Fn {
 	p := c.P
 	uninit := c.MustFunc(srv + ".(*establishedState).uninit")
 	if uninit == nil {
-		return
+		return nil
 	}
 	isBMP := p.Field(srv, "FSM", "isBMP")
 	rets := fsmReturns(c)
@@ -93,6 +103,10 @@ func runC07(c *core.Ctx) {
 				"the session leaves Established on this path without uninit: the routes learned over it stay in the Loc-RIB, its Adj-RIB-Out keeps receiving updates, its ASN/cluster ID stay registered for loop detection, and the next Established state skips init because ribsInitialized is still set")
 		}
 	}
+	return uninit
+}
+
+func uninitRest(c *core.Ctx, p *core.Prog, uninit *core.Fn) {
 	// uninit disposes both families and clears the flag
 	disp := p.Func(srv + ".(*fsmAddressFamily).dispose")
 	ribsInit := p.Field(srv, "FSM", "ribsInitialized")
